@@ -180,8 +180,38 @@ class C15(Prop):
                                      observed=[p[:2] for p in impl_parts(a.actual)][:6]))
             else:
                 validated += 1
-        return dict(evaluations=len(results) + len(raw) + len(eq_raw), validated=validated, failures=failures, samples=samples,
-                    groups=len(groups), path_named_requests=len(raw), mixed_entry_point_requests=len(eq_raw))
+        # both entry points in the REAL compiler, on items written by a macro_rules! macro that takes the type's name and the
+        # field type from its caller (the tokens of the item then carry two hygiene contexts): same verdict, same behaviour
+        from .. import l2
+        class _Lit:
+            def __init__(self, text):
+                self.text, self.meta = text, dict(nontrivial=True)
+            def input_text(self):
+                return self.text
+        mods = []
+        for k, (params, body, call, run) in enumerate(MACRO_DECLARED):
+            for mi, head in enumerate(('#[::derive_ex::derive_ex(%s)]', '#[derive(::derive_ex::Ex)] #[derive_ex(%s)]')):
+                cid = 7 * 10 ** 6 + 2 * k + mi
+                h = head % MACRO_TRAITS
+                src = 'macro_rules! __decl { (%s) => { %s %s }; }\n__decl!(%s);\npub fn run() { %s }' % (
+                    params, h, body, call, run.replace('@ID@', str(cid)))
+                mods.append(l2.Module(cid, src, _Lit('macro_rules! __decl { (%s) => { %s %s }; } __decl!(%s);' % (
+                    params, h.replace('::derive_ex::', ''), body, call))))
+        exe = l2.compile_batch('c15macro', mods, prelude='use ::std::hash::{Hash, Hasher};\npub fn hs<T: Hash>(t: &T) -> u64 { '
+                               'let mut h = ::std::collections::hash_map::DefaultHasher::new(); t.hash(&mut h); h.finish() }\n')
+        mobs = l2.run_exe(exe)[1] if exe else {}
+        for a, d in zip(mods[0::2], mods[1::2]):
+            oa, od = mobs.get(str(a.cid)), mobs.get(str(d.cid))
+            if not (a.compiled and d.compiled) or oa != od or not oa:
+                bad = d if a.compiled else a
+                failures.append(dict(**{'class': 'entry-points-differ-in-the-compiler', 'mode': 'macro-declared'}, input=bad.meta.input_text(),
+                                     expected='compiles and behaves the same through both entry points',
+                                     observed=[x['message'] for x in bad.diags if x['level'] == 'error'][:3] or [oa, od]))
+            else:
+                validated += 1
+        l2.cleanup('c15macro')
+        return dict(evaluations=len(results) + len(raw) + len(eq_raw) + len(mods), validated=validated, failures=failures, samples=samples,
+                    groups=len(groups), path_named_requests=len(raw), mixed_entry_point_requests=len(eq_raw), programs=len(mods))
 
 
 # both entry points on one item: the attribute macro takes every `#[derive_ex(..)]` list of the item, also those written
@@ -202,6 +232,22 @@ PATH_NAMED_LISTS = [
     ('D', '', '#[derive_ex(PartialEq)] @X@ struct X { a: u8 }', '#[derive_ex::derive_ex(Debug)]'),
     ('A', 'Debug', '@X@ struct X<T>(T);', '#[foo::derive_ex(Clone)]'),
     ('D', '', '#[derive_ex(Hash, PartialEq)] @X@ enum E { A { x: u8 }, B }', '#[foo::bar::derive_ex]'),
+]
+
+
+MACRO_TRAITS = 'Debug, Clone, Default, PartialEq, Eq, PartialOrd, Ord, Hash'
+_OBS = ('let (a, b) = (%s, %s); println!("@ID@\\to\\t{:?} {:?} {:?} {} {:?} {:?} {}", a, a.clone(), a == b, hs(&a) == hs(&b), '
+        'a.cmp(&b), a.partial_cmp(&b), a == Default::default());')
+# (macro parameters, item written by the macro, arguments of the call, what is observed)
+MACRO_DECLARED = [
+    ('$name:ident, $t:ident', 'pub struct $name { pub value: $t, pub n: u8 }', 'Meters, u32',
+     _OBS % ('Meters { value: 1, n: 0 }', 'Meters { value: 2, n: 0 }')),
+    ('$name:ident, $t:tt', 'pub enum $name { Some($t), #[default] None, Two { a: $t, b: u8 } }', 'Maybe, u32',
+     _OBS % ('Maybe::Some(1)', 'Maybe::Two { a: 0, b: 1 }')),
+    ('$name:ident, $t:ty', 'pub struct $name(pub $t, pub u8);', 'Pair, (u8, Option<u16>)', _OBS % ('Pair((1, None), 0)', 'Pair((1, Some(2)), 0)')),
+    ('$name:ident, $p:ident, $f:ident', 'pub struct $name<$p> { pub $f: $p, pub k: Option<$p> }', 'Gen, Tq, val',
+     _OBS % ('Gen { val: 1u8, k: None }', 'Gen { val: 1u8, k: Some(2) }')),
+    ('$($i:tt)*', '$($i)*', 'pub struct Whole { pub a: u8, pub b: (u8, u8) }', _OBS % ('Whole { a: 1, b: (0, 1) }', 'Whole { a: 1, b: (1, 0) }')),
 ]
 
 
